@@ -3,7 +3,7 @@ import os, json
 import common
 from common import VERIF, COQ, BIN, CheckError
 
-CONE = ["Base/Str.v", "Tools/GenServer.v", "Tools/GenServerLemmas.v", "Tools/GenServerRun.v"]
+CONE = ["Base/Str.v", "Tools/Decimal.v", "Tools/GenServer.v", "Tools/GenServerLemmas.v", "Tools/IntText.v", "Tools/ClientServer.v", "Tools/GenServerRun.v"]
 CFG = {
     "C03": dict(props="Props/C03.v", where="compiled generated server (bind<Param> via the in-process driver) and swag.SplitByFormat vs bind / split_by"),
     "C04": dict(props="Props/C04.v", where="compiled generated client against compiled generated server, swag.JoinByFormat/SplitByFormat vs client_read / join_by / split_by"),
